@@ -15,6 +15,7 @@ mod c10;
 mod sqlite;
 mod c08;
 mod c07;
+mod evalx;
 mod c14;
 mod dp;
 
